@@ -136,6 +136,16 @@ func c11Exec(op string) string {
 	if err != nil && !deepEq(before, m) && note == "" {
 		note = "the operation failed but modified the Map"
 	}
+	if name == "setv" && err == nil && note == "" && segsSafe(segs) && !deepEq(before, m) {
+		// whatever the parent is: a set that reports success and did something makes the path yield
+		// the new value (a null parent is the documented no-op: success, nothing changes)
+		if _, isList := value.([]interface{}); !isList {
+			got, gerr := mv.ValueForPath(path)
+			if gerr != nil || !deepEq(got, value) {
+				note = fmt.Sprintf("SetValueForPath reported success but ValueForPath returns %v (%v)", clip(fmt.Sprint(got), 80), gerr)
+			}
+		}
+	}
 	after := enc(m)
 	if err != nil {
 		return "err " + mutErrKind(err) + " " + after + " | " + note
@@ -231,6 +241,14 @@ func c11Gen(r *Rng, n int) []string {
 			if r.P(6) {
 				path = r.DerivedPath(m, false, 4) // may go through lists / wildcards
 			}
+			ms := ms
+			if r.P(8) {
+				// a sub-document attached as a value of Go type mxj.Map: not a map for the walkers
+				// ("parent that is not a map"), an opaque leaf for the model
+				if m2, ok := retypeOnPath(r, m, path); ok {
+					ms = enc(m2)
+				}
+			}
 			switch r.Intn(3) {
 			case 0:
 				val := r.Value(&cfg, 3, false)
@@ -251,6 +269,33 @@ func c11Gen(r *Rng, n int) []string {
 		}
 	}
 	return ops
+}
+
+// retypeOnPath returns a copy of m in which one nested map on the way of path (not the root) has
+// the Go type mxj.Map instead of map[string]interface{}.
+func retypeOnPath(r *Rng, m map[string]interface{}, path string) (map[string]interface{}, bool) {
+	c := deepCopy(m).(map[string]interface{})
+	segs := strings.Split(path, ".")
+	type slot struct {
+		parent map[string]interface{}
+		key    string
+	}
+	var slots []slot
+	cur := c
+	for _, sg := range segs {
+		nx, ok := cur[sg].(map[string]interface{})
+		if !ok {
+			break
+		}
+		slots = append(slots, slot{cur, sg})
+		cur = nx
+	}
+	if len(slots) == 0 {
+		return nil, false
+	}
+	sl := slots[r.Intn(len(slots))]
+	sl.parent[sl.key] = mxj.Map(sl.parent[sl.key].(map[string]interface{}))
+	return c, true
 }
 
 func init() {
